@@ -6,7 +6,7 @@ MANIFEST = dict(
     text='Theorems in coq/Properties/C17*.v are machine-checked over the engine model for every core history (any length below 2^24): the three STATE counters equal the census (LockedCount = sum of the locked counters of the keys, which is the sum of outstanding depths by C01_global; WaitCount = live queued requests; KeyCount = key managers), the reference count of every record and of every manager equals the number of structures referring to it, no wheel / table / queue refers to a freed record, every manager has a record, and once every record is freed all counters, wheels, tables and the key table are empty (C17_drained_complete); the LCount / LRCount equals the locked counter of the key / the depth of the addressed hold of the state in which the critical section ends (C17_reply.v); the same statements are refuted outside the core subset by the re-entrant ack re-lock witness; tie = differential correspondence comparing STATE counters, per-record reference counts, manager reference counts and queue contents after every action and after the drain phase; monitor = census vs counters on implementation snapshots, zero after drain, no freed record reachable.',
     note="Trusted: Coq kernel; hand-written model validated by the correspondence check of the same run; extraction (ExtrOcamlBasic only); harness + hooks; sequential schedules at request/sweep granularity, one shard, manual clock (sweeper driver loops replayed by the harness); see evidence trusted_base for the full list of modelled-not-verified parts.",
 )
-PROFILES = [("core", 0.25), ("waiters", 0.15), ("timeouts", 0.12), ("expiry", 0.12), ("reentrant", 0.1), ("aof", 0.08), ("keys", 0.08), ("sched", 0.08), ("many", 0.02)]
+PROFILES = [("core", 0.25), ("waiters", 0.15), ("timeouts", 0.12), ("expiry", 0.12), ("reentrant", 0.1), ("aof", 0.08), ("keys", 0.08), ("sched", 0.08), ("many", 0.02), ("schedsweep", 0.15)]
 MONITORS = ['C17', 'PANIC']
 
 
